@@ -7,10 +7,13 @@ Workloads: ALL sequences of <= 4 (quick) / <= 5 (thorough) puts/deletes on keys
 ``Simulation`` against a real ``LSMTree`` + ``WriteAheadLog``; every sync policy
 the library offers (every write, batch(2), periodic); memtable size 1 and 2
 (with size-tiered compaction at 2 tables, so flushes AND compactions happen in
-the middle of the workload); the second writer starts inside every distinct
-window of the first writer's solo run (between any two consecutive delivery
-instants: during its log write, its log sync, its memtable insert, its flush,
-its compaction) and on the instants themselves (ties).
+the middle of the workload); the second writer starts at t=0 (tie) and inside
+every distinct window of the first writer's solo run (midpoint between any two
+consecutive delivery instants: during its log write, its log sync, its memtable
+insert, its flush, its compaction); thorough also starts it ON those instants
+(ties) and adds a 3-level tree and leveled compaction.  quick and the 5-op
+thorough drivers use the key-renaming symmetry a<->b (writer 0's first op is on
+key a); the thorough ``allkeys-*`` drivers explore <= 4 ops without it.
 
 For each workload the uninterrupted run has N deliveries.  For EVERY k in
 [0, N] the workload is re-executed from scratch, stopped after delivery k
@@ -372,11 +375,9 @@ def explore_workload(policy, cfg, writers, stats):
     stats["exec"] += 1
     stats["trans"] += n
     if outcome != "done" or any(not o["done"] for o in c0.ops):
+        # the statement does not promise termination: a run that does not finish is a reported cap
+        # (driver marked non-exhaustive), never a verdict and never a hang of the checker
         stats["horizon"] += 1
-        stats["viol"].setdefault("LSMTree/horizon/run-does-not-finish", (
-            f"workload not finished after {n} deliveries (outcome {outcome})",
-            {"policy": policy, "cfg": cfg, "writers": writers, "k": None}, (99, 99, 99)))
-        stats["viol_count"]["LSMTree/horizon/run-does-not-finish"] = 1
         return
     if c0.seq_mismatch and "seqnote" not in stats:
         stats["seqnote"] = c0.seq_mismatch
@@ -481,8 +482,6 @@ def offsets_for(policy, cfg, ops0, ties):
         offs.append((x + y) // 2)
         if ties:
             offs.append(y)
-    if ties is False and ts:
-        pass
     return sorted(set(offs))
 
 
@@ -576,7 +575,8 @@ def run_driver(run, name, policy, cfgs, max_ops, ties, seed, keysym=False):
     d.extra["outcome_classes"] = sorted(outcomes, key=repr)[:40]
     if extra["horizon_runs"]:
         d.exhaustive = False
-        d.caps.append(f"{extra['horizon_runs']} runs hit the {MAX_EVENTS}-event horizon")
+        d.caps.append(f"{extra['horizon_runs']} workloads did not finish within the {MAX_EVENTS}-event horizon "
+                      f"(their crash points were not enumerated)")
     d.wall_s = time.time() - t0
 
 
